@@ -34,6 +34,8 @@ def _audit(event, args):
     path, mode, flags = (tuple(args) + (None, None, None))[:3]
     if isinstance(path, bytes):
         path = path.decode('utf-8', 'replace')
+    if isinstance(path, str) and not os.path.isabs(path):
+        path = os.path.join(os.getcwd(), path)        # the replayed code may name its files relative to its working directory
     if not isinstance(path, str) or not path.startswith(_SPY['roots']):
         return
     if mode is None:
@@ -276,7 +278,9 @@ class C20(Prop):
                 'recIn': shape_in, 'repIn': shape_rep, 'recOut': shape_out,
                 'repOut': shape_out if rng.random() < 0.7 else rng.choice(
                     [s for s in SHAPES if 'P' not in s['pos'] or shape_index(s) == shape_index(shape_out)]),
-                'decoy': rng.random() < 0.5}
+                'decoy': rng.random() < 0.5,
+                # a leftover file of the same size at the replayed path; the replayed code names its files relative to its cwd
+                'stale': rng.random() < 0.25, 'relative': rng.random() < 0.2}
 
     def mk_series(self, rng, cassette=None, n=None):
         """consecutive operations of one long-lived service: same handlers, same working paths; a delivery often has the
@@ -485,6 +489,8 @@ class C20(Prop):
 
         def canon_path(p):
             if isinstance(p, str):
+                if state.get('relative') and p in ('in.bin', 'out.bin', 'decoy.bin'):
+                    return '<REP>/' + p          # a bare file name, relative to the replay's working directory
                 p = p.replace(rec_dir, '<REC>')
                 for d in rep_dirs:
                     p = p.replace(d, '<REP>')
@@ -534,6 +540,8 @@ class C20(Prop):
                     d = state['dir']
                     echo = state['delivery']['out'] == 'echo'
                     p_in, p_out, dec = os.path.join(d, 'in.bin'), os.path.join(d, 'out.bin'), os.path.join(d, 'decoy.bin')
+                    if state.get('relative') and phase == 'rep':
+                        p_in, p_out, dec = 'in.bin', 'out.bin', 'decoy.bin'      # the working directory IS `d`
                     call = case['recIn' if phase == 'rec' else 'repIn']
                     a = [tok_value(t, p_in, dec) for t in call['pos']]
                     k = {kk: tok_value(t, p_in, dec) for kk, t in call['kw']}
@@ -602,12 +610,21 @@ class C20(Prop):
                 state['delivery'], state['dir'] = dl, rep_dir
                 for k in ('rep_ret', 'rep_seen', 'rep_watch', 'rep_out_written'):
                     state.pop(k, None)
+                if case.get('stale') and isinstance(dl['in'], dict) and 'hex' in dl['in']:
+                    # a leftover of an earlier run sits at the replayed path: same size, other bytes
+                    h_write(os.path.join(rep_dir, 'in.bin'), bytes(b ^ 0x5a for b in content_bytes(dl['in'])))
+                state['relative'] = bool(case.get('relative'))
+                cwd = os.getcwd()
+                if state['relative']:
+                    os.chdir(rep_dir)
                 _SPY['log'] = []
                 _SPY['on'] = True
                 try:
                     pb = tr.play(r['rid'], lambda recording: Op().run('rep'))
                 finally:
                     _SPY['on'] = False
+                    if state['relative']:
+                        os.chdir(cwd)
                 t['rep_reads'] = [canon_path(p) for p in _SPY['log']]
                 t['restored_ret'] = state.get('rep_ret')
                 seen = state.get('rep_seen')
@@ -686,7 +703,9 @@ class C20(Prop):
                  'recOut': call_wire(case['recOut'], '<REC>/out.bin', '<REC>/decoy.bin', False),
                  'repOut': call_wire(case['repOut'], '<REP>/out.bin', '<REP>/decoy.bin', False),
                  'recFiles': [['<REC>/in.bin', case['in']]] + ([['<REC>/decoy.bin', {'hex': b'decoy'.hex()}]] if case['decoy'] else []),
-                 'repFiles': [['<REP>/decoy.bin', {'hex': b'decoy'.hex()}]] if case['decoy'] else [],
+                 'repFiles': ([['<REP>/decoy.bin', {'hex': b'decoy'.hex()}]] if case['decoy'] else []) +
+                 ([['<REP>/in.bin', {'hex': bytes(b ^ 0x5a for b in bytes.fromhex(case['in']['hex'])).hex()}]]
+                  if case.get('stale') and isinstance(case['in'], dict) and 'hex' in case['in'] else []),
                  'recInPath': '<REC>/in.bin', 'repInPath': '<REP>/in.bin',
                  'recOutPath': '<REC>/out.bin', 'repOutPath': '<REP>/out.bin', 'repDecoy': '<REP>/decoy.bin',
                  'out': case['out']}]
